@@ -194,3 +194,8 @@ register(Unit(P, "CODEC-KEYS/create_manifest_list_file-entries", _cpw.h_manifest
 
 from contracts import helpers as _HC  # noqa: E402
 _HC.register_under("C14", ["COUNT/recorded_manifest_count", "COUNT/expected_entry_count", "COUNT/_check_count"])
+
+
+# what the read path verifies against (checksum, row count, size) has to survive manifest rewrites: the DELETE-EXACT / CARRY unit of C15
+from contracts import commitpath as _cp14, snapshots as _S14  # noqa: E402
+register(Unit(P, "CHECKSUM-CARRY/_commit_file_ops", _cp14.h_commit_file_ops("both"), functions=[f"{_cp14.TX}:Transaction._commit_file_ops"], replay=_S14._replay_carry))
